@@ -449,6 +449,47 @@ func (p *Prog) renamedTo(name string) string {
 			}
 		}
 	}
+	if nHosts > 0 && len(common) == 0 {
+		// no new function of that signature: the anchor may have changed its shape as well as its name (a method
+		// turned into a function that takes the fields it used). The one new function that every surviving
+		// caller calls and whose body says the same (constants, outside calls) is taken for it.
+		if want, has := AnchorPrints[name]; has {
+			var byPrint map[string]bool
+			for _, h := range AnchorCallers[name] {
+				hf := p.funcExact(h)
+				if hf == nil {
+					continue
+				}
+				cands := map[string]bool{}
+				Instrs(hf, true, func(in ssa.Instruction) {
+					ci, ok := in.(ssa.CallInstruction)
+					if !ok {
+						return
+					}
+					cal := ci.Common().StaticCallee()
+					if cal == nil || cal.Pkg != hf.Pkg || cal.Parent() != nil || cal.Synthetic != "" {
+						return
+					}
+					n := funcNameRaw(cal)
+					if !OrigFuncs[n] && BodyPrint(cal) == want {
+						cands[n] = true
+					}
+				})
+				if byPrint == nil {
+					byPrint = cands
+				} else {
+					for n := range byPrint {
+						if !cands[n] {
+							delete(byPrint, n)
+						}
+					}
+				}
+			}
+			if len(byPrint) == 1 {
+				common = byPrint
+			}
+		}
+	}
 	if nHosts == 0 || len(common) != 1 {
 		return ""
 	}
